@@ -128,3 +128,41 @@ func TestCorpus(t *testing.T) {
 		t.Logf("  limitation (%d files): %s", limCount[l], l)
 	}
 }
+
+// TestDecodeFile prints the decoded structure of the file named by SPECDEC_FILE
+// (debugging aid; skipped otherwise).
+func TestDecodeFile(t *testing.T) {
+	p := os.Getenv("SPECDEC_FILE")
+	if p == "" {
+		t.Skip("set SPECDEC_FILE to dump one file")
+	}
+	b, err := os.ReadFile(p)
+	if err != nil {
+		t.Fatal(err)
+	}
+	r := Decode(b)
+	fmt.Printf("superblock v%d O=%d L=%d base=%#x eof=%#x root=%#x size=%#x\n", r.SuperblockVersion, r.OffsetSize, r.LengthSize, r.BaseAddr, r.EOFAddr, r.RootAddr, r.FileSize)
+	r.Walk(func(path string, o *Object, l *Link) {
+		if o == nil {
+			fmt.Printf("%q -> %+v\n", path, *l)
+			return
+		}
+		fmt.Printf("%q @%#x kind=%s hdr=v%d rc=%d msgs=%#x dims=%v layout=%s/v%d chunk=%v filters=%v attrs=%s/%d links=%s/%d dataerr=%q datalen=%d\n",
+			path, o.Addr, o.Kind, o.HeaderVersion, o.RefCount, o.MsgTypes, o.Dims, o.Layout, o.LayoutVersion, o.ChunkDims, o.Filters, o.AttrStorage, len(o.Attrs), o.LinkStorage, len(o.Links), o.DataErr, len(o.Data))
+		if o.Type != nil {
+			fmt.Printf("    type %+v\n", *o.Type)
+		}
+		for _, a := range o.Attrs {
+			fmt.Printf("    attr %q dims=%v data=% x\n", a.Name, a.Dims, a.Data)
+		}
+	})
+	for _, e := range r.Extents {
+		fmt.Printf("  extent [%#x,%#x) %s %s\n", e.Start, e.End, e.Kind, e.Owner)
+	}
+	for _, f := range r.Findings {
+		fmt.Printf("  FINDING %s @%#x %s\n", f.Class, f.Addr, f.Detail)
+	}
+	for _, l := range r.Limitations {
+		fmt.Printf("  LIMITATION %s\n", l)
+	}
+}
